@@ -303,7 +303,19 @@ func (a *Box2) lineIntersect(l *Line2) *Line2 {
 		p := u.Add(v.MulScalar(t))
 		p = a.Snap(p, tolerance)
 		// is the point in the box?
-		if a.Contains(p) {
+		if !a.Contains(p) {
+			continue
+		}
+		// The t-values are compared with a tolerance in parameter space. For a
+		// short segment two of them can differ by more than that and still give
+		// the same (snapped) point: compare the points as well.
+		dup := false
+		for _, q := range pSet {
+			if q.Equals(p, tolerance) {
+				dup = true
+			}
+		}
+		if !dup {
 			pSet = append(pSet, p)
 		}
 	}
